@@ -52,6 +52,18 @@ Frag(pos, kind) ==
       [] pos = "modcall2"    -> <<Import(LS(NT.t5), "L"), PrintS(MCall("L", "spx", <<Lit([t |-> "id", id |-> "f1"]), LI(1)>>))>>
       [] pos = "macrodefault" -> <<Macro("mm", <<ParamD("z", X(kind, LI(1)))>>, <<PrintS(Var("z"))>>), PrintS(Call("mm", <<>>))>>
 
+\* what the sandboxed template does before it reaches the forbidden name (nothing of it may lift the sandbox)
+Pres == {"none", "spaceless0", "spaceless1", "allowed", "loopinc", "macrocall"}
+PreStmts(pre) ==
+    CASE pre = "spaceless0" -> <<Spaceless(<<If1(Var("nosuchvar"), <<T(<<120>>)>>)>>), Spaceless(<<>>)>>      \* bodies that render to nothing
+      [] pre = "spaceless1" -> <<Spaceless(<<T(<<60, 98, 62>>), PrintS(SpyF("sf", "g3", LS(sA))), T(<<60, 47, 98, 62>>)>>)>>
+      [] pre = "allowed"    -> <<PrintS(SpyF("sf", "g3", Spy("sp", "g4", LS(sA)))), Apply("upper", <<>>, <<T(sA)>>)>>
+      [] pre = "loopinc"    -> <<For1("j", L12, <<Include(LS(NT.t5), Hash(<<LS(NT.z)>>, <<Var("j")>>), TRUE, TRUE, FALSE, FALSE)>>)>>
+      [] pre = "macrocall"  -> <<PrintS(Call("mm", <<LI(3)>>))>>
+      [] OTHER -> <<>>
+PreDefs(pre) == IF pre = "macrocall" THEN <<Macro("mm", <<Param("z")>>, <<PrintS(Var("z"))>>)>> ELSE <<>>
+PreOf(c) == IF "pre" \in DOMAIN c THEN c.pre ELSE "none"
+
 Routes1 == {"direct", "include", "includeonly", "includewith", "extendsbody", "extendsblock", "parent",
             "import", "from", "localmacro"}
 UsesMacroRoute == {"import", "from", "localmacro", "parent"}
@@ -89,7 +101,11 @@ Cases == {[pos |-> pos, kind |-> kind, route |-> route, pol |-> pol, r2 |-> "non
             : pos \in Positions \ ModCall, kind \in {"fn", "filter"},
               route \in {"include", "includeonly", "import", "extendsblock"},
               r2 \in Routes1 \ {"direct"}, pol \in {"forbid", "allow"}} ELSE {})
+PreCases == {[pos |-> pos, kind |-> kind, route |-> route, pol |-> pol, r2 |-> "none", pre |-> pre]
+               : pos \in {"print", "forseq", "chainupper", "ifcond", "set"}, kind \in {"fn", "filter"}, route \in {"direct", "include", "extendsblock", "localmacro"},
+                 pol \in {"forbid", "allow"}, pre \in Pres \ {"none"}}
 Valid(c) ==
+    /\ (PreOf(c) = "macrocall" => c.route \in {"direct", "include"})
     /\ (c.pos \in OnlyFilter => c.kind = "filter")
     /\ (c.pos \in ModCall => c.kind = "fn" /\ c.pol = "forbid" /\ c.r2 = "none"
                              /\ (c.pos = "modcall2" => RouteKeepsTop(c.route)))
@@ -101,7 +117,7 @@ Valid(c) ==
 
 \* depth 2: the first hop leads to t2, whose content is the second hop's leaf
 Tp(c) ==
-    LET frag == Frag(c.pos, c.kind)
+    LET frag == PreDefs(PreOf(c)) \o PreStmts(PreOf(c)) \o Frag(c.pos, c.kind)
         below == IF c.r2 = "none" THEN RouteTp(c.route, frag, "t1", "t2")
                  ELSE LET second == RouteTp(c.r2, frag, "t2", "t3")
                       IN (CASE c.route = "include" -> ("t1" :> <<T(<<105>>), Inc(LS(NT.t2))>>)
@@ -129,12 +145,22 @@ Confined(c) ==
 
 CaseOf(c) ==
     LET ref == Ref(c)
-        ids == {"f1", "g1", "g2", "o1", "o2"}
+        ids == {"f1", "g1", "g2", "g3", "g4", "o1", "o2"}
+        \* the same engine after its policy was replaced: allow -> forbid revokes, forbid -> allow grants
+        other == IF c.pol = "allow" THEN "forbid" ELSE IF c.pol = "forbid" THEN "allow" ELSE "empty"
+        ref2 == Render(MkW(Tp(c), AllowF(other), AllowFn(other), NoFault), "main", EmptyFn)
+        phase(edit) == [allowf |-> AllowF(other), allowfn |-> AllowFn(other), edit |-> edit, ok |-> ref2.ok, out |-> ref2.out,
+                        err |-> IF c.pos \in ModCall THEN "any" ELSE ref2.err,
+                        calls |-> IF ref2.ok THEN [id \in ids |-> CountOf(ref2.calls, id)] ELSE [id \in {"f1", "o1", "o2"} |-> CountOf(ref2.calls, id)]]
     IN [prop |-> "C06", key |-> ToJson(c),
-        tags |-> {"pos:" \o c.pos, "kind:" \o c.kind, "route:" \o c.route, "pol:" \o c.pol, "r2:" \o c.r2},
+        tags |-> {"pos:" \o c.pos, "kind:" \o c.kind, "route:" \o c.route, "pol:" \o c.pol, "r2:" \o c.r2, "pre:" \o PreOf(c)},
         entry |-> "main", ctx |-> EmptyFn,
         cfg |-> [sandbox |-> TRUE, allowf |-> AllowF(c.pol), allowfn |-> AllowFn(c.pol)],
-        runs |-> {[label |-> "sandbox", tp |-> Sources(Tp(c), LMin), xcalls |-> [id \in {} |-> 0]]},
+        runs |-> {[label |-> "sandbox", tp |-> Sources(Tp(c), LMin), xcalls |-> [id \in {} |-> 0], denyfalse |-> FALSE, then |-> <<>>],
+                  [label |-> "denyfalse", tp |-> Sources(Tp(c), LMin), xcalls |-> [id \in {} |-> 0], denyfalse |-> TRUE, then |-> <<>>]}
+                 \cup (IF c.pol = "empty" \/ c.pos \in ModCall THEN {} ELSE
+                       {[label |-> "repolicy", tp |-> Sources(Tp(c), LMin), xcalls |-> [id \in {} |-> 0], denyfalse |-> FALSE, then |-> <<phase(FALSE)>>],
+                        [label |-> "editpolicy", tp |-> Sources(Tp(c), LMin), xcalls |-> [id \in {} |-> 0], denyfalse |-> FALSE, then |-> <<phase(TRUE)>>]}),
         \* x.f() where x is not a macro library: whether that is "unknown macro" or a security
         \* violation is not stated -- any error will do, but the forbidden function must not run
         expect |-> [ok |-> ref.ok, out |-> ref.out, err |-> IF c.pos \in ModCall THEN "any" ELSE ref.err,
@@ -142,7 +168,7 @@ CaseOf(c) ==
                     always |-> IF ref.ok THEN [id \in {} |-> 0]
                                ELSE [id \in {"f1", "o1", "o2"} |-> CountOf(ref.calls, id)]]]
 
-Init == cs \in {c \in Cases : Valid(c) /\ Ref(c).err # "frag"}
+Init == cs \in {c \in Cases \cup PreCases : Valid(c) /\ Ref(c).err # "frag"}
 Next == UNCHANGED cs
 Spec == Init /\ [][Next]_cs
 Emit == PrintT(ToJson(CaseOf(cs)))
